@@ -4702,3 +4702,113 @@ func ruleLostRuleSkip(w *World, r *Report) {
 	}
 	r.ok("LOST-RULE-SKIP", key, w.PosOf(lookups[0]), "a candidate that is gone is skipped")
 }
+
+// EXP-TTL-RELATIVE (C07): a ttl is relative to now, whatever its Go type.
+func ruleExpTTLRelative(w *World, r *Report) {
+	r.Rule("EXP-TTL-RELATIVE", "in setExpires every value that is written back as `expires` for a fact that came with a `ttl` depends on the clock: the value stored under the key \"expires\" on the ttl path is a merge of one value per accepted ttl type (number, string), and each of them derives from NowSecs / time.Now.  A type whose ttl is taken as it is (`case int64: expires = vv`) turns `ttl: 5` into the instant 5 s after the epoch — the write is refused as expired, and a large ttl becomes an absolute instant instead of now + ttl.  (otto hands integer literals over as int64, so a script's `ttl: 5` takes that path.)", 1)
+	fn := w.Func("core", "setExpires")
+	key := "fn=" + fname(fn)
+	isClock := func(v ssa.Value) bool {
+		c, ok := v.(*ssa.Call)
+		if !ok {
+			return false
+		}
+		f := c.Common().StaticCallee()
+		return f != nil && (f.Name() == "NowSecs" || (f.Pkg != nil && f.Pkg.Pkg.Path() == "time" && f.Name() == "Now"))
+	}
+	isTTLLookup := func(v ssa.Value) bool {
+		lk, ok := v.(*ssa.Lookup)
+		if !ok {
+			return false
+		}
+		k, ok := constKey(lk.Index)
+		return ok && k == "ttl"
+	}
+	n := 0
+	bad := ""
+	allInstrs(fn, func(in ssa.Instruction) {
+		mu, ok := in.(*ssa.MapUpdate)
+		if !ok {
+			return
+		}
+		if k, ok := constKey(mu.Key); !ok || k != "expires" {
+			return
+		}
+		if !controlDependsOn(fn, in, isTTLLookup) {
+			return
+		}
+		v := mu.Value
+		if mi, ok := v.(*ssa.MakeInterface); ok {
+			v = mi.X
+		}
+		var leaves []ssa.Value
+		var walk func(x ssa.Value, seen map[ssa.Value]bool)
+		walk = func(x ssa.Value, seen map[ssa.Value]bool) {
+			if seen[x] {
+				return
+			}
+			seen[x] = true
+			if p, ok := x.(*ssa.Phi); ok {
+				for _, e := range p.Edges {
+					walk(e, seen)
+				}
+				return
+			}
+			leaves = append(leaves, x)
+		}
+		walk(v, map[ssa.Value]bool{})
+		for _, l := range leaves {
+			if c, ok := l.(*ssa.Const); ok && c.Value != nil && c.Int64() == 0 {
+				continue // the zero the variable starts with (error paths return before the store)
+			}
+			n++
+			if !dependsOn(l, isClock) {
+				bad = "a ttl value is written back as `expires` without the clock (" + l.String() + ")"
+			}
+		}
+	})
+	switch {
+	case n == 0:
+		r.exempt("EXP-TTL-RELATIVE", key, w.Pos(fn.Pos()), "no store of `expires` on the ttl path found: shape not recognised, not decided")
+	case bad != "":
+		r.violation("EXP-TTL-RELATIVE", key, w.Pos(fn.Pos()), bad+": for that type the ttl is taken as an absolute instant")
+	default:
+		r.ok("EXP-TTL-RELATIVE", key, w.Pos(fn.Pos()), itoa(n)+" ttl encodings, each relative to the clock")
+	}
+}
+
+// EXP-CANON-FIRST (C07): the expiry is canonicalised before the rule is validated.
+func ruleExpCanonFirst(w *World, r *Report) {
+	r.Rule("EXP-CANON-FIRST", "premise: core.Rule.Expires is a number, while setExpires accepts an `expires` given as an RFC3339 string and rewrites it as a number (checked: the field's type; setExpires parses with time.Parse).  Conclusion: in Location.AddRule every path to the validation of the rule map (RuleFromMap, which round-trips it through JSON into a Rule) passes setExpires on that same map first.  Validating first refuses every rule whose `expires` is given in the string encoding the property names", 1)
+	fn := w.Method("core", "Location", "AddRule")
+	key := "fn=" + fname(fn)
+	se := w.Func("core", "setExpires")
+	rfm := w.Func("core", "RuleFromMap")
+	// premise
+	ruleT := structOf(w.Named("core", "Rule"))
+	numeric := false
+	if ruleT != nil {
+		for i := 0; i < ruleT.NumFields(); i++ {
+			if f := ruleT.Field(i); f.Name() == "Expires" {
+				if b, ok := f.Type().Underlying().(*types.Basic); ok && b.Info()&types.IsNumeric != 0 {
+					numeric = true
+				}
+			}
+		}
+	}
+	if !numeric {
+		r.exempt("EXP-CANON-FIRST", key, w.Pos(fn.Pos()), "premise fails: Rule.Expires is not a plain number any more; not decided by this rule")
+		return
+	}
+	isSE := func(in ssa.Instruction) bool { c := callOf(in); return c != nil && c.StaticCallee() == se }
+	isRFM := func(in ssa.Instruction) bool { c := callOf(in); return c != nil && c.StaticCallee() == rfm }
+	n, misses := mustPrecede(fn, isSE, isRFM)
+	switch {
+	case n == 0:
+		r.exempt("EXP-CANON-FIRST", key, w.Pos(fn.Pos()), "AddRule does not call RuleFromMap: shape not recognised, not decided")
+	case len(misses) > 0:
+		r.violation("EXP-CANON-FIRST", key, w.PosOf(misses[0].Exit), "the rule map is validated before its `expires` was canonicalised: a rule with an RFC3339 `expires` is refused (cannot unmarshal string into a number)")
+	default:
+		r.ok("EXP-CANON-FIRST", key, w.Pos(fn.Pos()), "setExpires runs before RuleFromMap on every path")
+	}
+}
